@@ -126,10 +126,10 @@ PROPS = {
         'claim': '55 fault kinds (26 render-time, 16 syntax, 5 add-time references, 8 unterminated constructs) x 7 placements (entry top level, block of parent, block of child with super(), included, component body, '
                  'included of included, component called from an included template) x random multi-byte/CRLF/blank-line filler before and after, in both registration orders. Checked: template name, span inside the source on '
                  'character boundaries, line/column = position of the byte range, span touches the offending token and stays inside the faulty construct, Display succeeds with `--> name:line:col` and the quoted line, '
-                 'one call-site note per call site naming the calling templates in order.',
+                 'one call-site note per call site naming the calling templates in order and designating a line:column inside the call construct, with the call sites at the top level or inside filter sections, set-blocks, loops, ifs and component bodies.',
         'note': 'the per-fault token table is kept by hand and calibrated on the pinned tree (every fault kind yields a located error there); a zero-width span on the first byte of the offending token counts as touching it; resource-limit errors (un-located Msg) are outside this property',
         'rule': "one evaluation = one injected fault; a cell = (fault class, fault kind, placement, line class [first/later line, multi-byte text before the fault on its line, column 0])",
-        'must_observe': ['spans_checked_with_coordinates', 'build_reports_checked', 'display_calls'],
+        'must_observe': ['spans_checked_with_coordinates', 'build_reports_checked', 'display_calls', 'call_site_positions_checked'],
     },
     'C19': {
         'level': 'exploration',
@@ -148,11 +148,11 @@ PROPS = {
         'technique': 'channel differential + writer fault enumeration (every write call, byte offsets, 4 failure kinds, short writes) + purity digest + concurrent-vs-sequential comparison on a shared instance; Miri and ThreadSanitizer legs in the thorough tier',
         'claim': 'For generated multi-template programs (inheritance with super(), includes, components with bodies, loops, captures, both write sinks, autoescape on) every render/render_block/render_component/render_str result is compared with the bytes '
                  'its _to variant writes; a counting writer measures the W write calls and N bytes of each successful render and a failing writer is then injected at every call index (up to 160) and at byte offsets 0, 1, N/2, N-1 and every 7th, '
-                 'with kinds Other/WriteZero/Interrupted-then-error/BrokenPipe and 1-3 byte short writes: the result must be an Io error, the accepted bytes a prefix, no panic. The hook digest of the engine and the context are compared before/after; '
+                 'with kinds Other/WriteZero/Interrupted-then-error/BrokenPipe and 1-3 byte short writes: the result must be an Io error, the accepted bytes a prefix, no panic. A deterministic family drives all four entry points into the nesting limits (recursive components 10-41 levels deep, directly and through includes, include chains 96-158 deep): both channels must succeed with the same bytes or both fail. The hook digest of the engine and the context are compared before/after; '
                  'one program in four is rendered from 2-16 threads on a fresh shared instance (random job orders, start barrier) and compared byte for byte with the sequential reference.',
         'note': 'Send+Sync of Tera, Context, Value, Key, Kwargs, Error, Number is a compile-time assertion in the harness (a regression is a build failure attributed to this check); data races proper are the business of the TSan/Miri legs, the quick tier only compares results',
         'rule': "one evaluation = one render or one injected failure point; a cell = (render variant, call/byte failure site, failure kind, short/full writes), (variant, ok/err) for the channel differential and the thread count for concurrency",
-        'must_observe': ['channel_pairs_compared', 'failure_points_injected', 'purity_checks', 'concurrent_renders_compared'],
+        'must_observe': ['channel_pairs_compared', 'failure_points_injected', 'purity_checks', 'concurrent_renders_compared', 'channel_pairs_at_nesting_limits'],
     },
     'C09': {
         'level': 'translation_validation',
@@ -194,10 +194,10 @@ PROPS = {
         'technique': 'independent graph oracle (exact-then-prefix name resolution, plain DFS for cycles) compared with the engine verdict and error kind on generated extends/include digraphs; every accepted set rendered in a supervised child process with a CPU watchdog',
         'claim': 'Random digraphs on 1-10 templates (<= 1 extends edge per node; include edges at top level, in dead branches, captures, component bodies, loops, blocks, filter sections and else branches), self-loops, cycles of length 2-10 entered from a tail, '
                  'dangling targets, targets reachable only through a fallback prefix, exact-vs-prefix shadowing, acyclic include and extends chains of depth 1-32 (deterministic sweep), and the mixed family (include edges inside blocks of templates in an extends relation, with super()). '
-                 'The engine must accept exactly the graphs the oracle finds sound and reject the others with an error kind in the oracle\'s admissible set; every template of every accepted set is then rendered: text or an error, never a dead process or a CPU-budget overrun.',
+                 'Each graph is registered as one batch (either order) or in two steps (the set with the edges of one template cut, then that template again with its real source). The engine must accept exactly the graphs the oracle finds sound and reject the others with an error kind in the oracle\'s admissible set; every template of every accepted set is then rendered: text or an error, never a dead process or a CPU-budget overrun.',
         'note': 'when several faults coexist any corresponding kind is accepted; termination is decided as bounded progress (20 s CPU per case, confirmed alone with 10x); stack verdicts for an 8 MiB stack and the optimised build',
         'rule': "one evaluation = one registration or one render; a cell = (shape class incl. cycle length/tail or chain depth, engine verdict, set of include placements, prefix in use)",
-        'must_observe': ['graphs_accepted', 'graphs_rejected', 'renders_supervised'],
+        'must_observe': ['graphs_accepted', 'graphs_rejected', 'renders_supervised', 'graphs_completed_in_a_second_step'],
     },
     'C02': {
         'level': 'exploration',
